@@ -59,7 +59,8 @@ CONSTANTS Alphabet,     \* bytes keys are made of, e.g. {0, 1, 255}
           L,            \* the batch limit of the repository's removers (333); sizes are relative to it
           Sizes,        \* size classes Fill may use (names, see SizeOf)
           HistStores,   \* hist: prefixes whose kept object is put through every history
-          HistKinds     \* hist: the calls a history is made of (names, see HistOp; a size class = Fill)
+          HistKinds,    \* hist: the calls a history is made of (names, see HistOp; a size class = Fill)
+          HistFillFirst \* hist: TRUE = a history starts with a Fill (histories on small stores are the walks' part)
 
 Nil == <<-1>>            \* a nil []byte (no bound)
 FB  == 2                 \* the byte after the prefix in a filler key
@@ -69,6 +70,7 @@ ASSUME FB \notin Alphabet
 StoresSmall == {<<1>>, <<1, 0>>, <<1, 255>>, <<255>>, <<255, 255>>}
 StoresLarge == StoresSmall \cup {<<0>>, <<0, 1>>}
 HistStoresQuick == {<<1>>, <<255, 255>>}
+HistStoresThorough == {<<1>>, <<1, 0>>, <<255, 255>>}
 Values == {1, 2}
 
 SizeOf(c) == CASE c = "3" -> 3 [] c = "L-1" -> L - 1 [] c = "L" -> L [] c = "L+1" -> L + 1
@@ -85,7 +87,7 @@ VARIABLES kv,       \* the shared store: a function from a finite set of byte se
           bulk,     \* bulk[p] = number of filler keys under Fat(p) (0: none; > 0 iff Fat(p) \in DOMAIN kv)
           closed,   \* prefixes on whose kept object Close() was called
           obj,      \* obj[p] = what the kept object of p has been through: calls, largest removal (-1: none)
-          path,     \* hist: <<prefix under test>> \o the names of the calls made
+          path,     \* hist: <<prefix under test>> \o the names of the calls made (step.path: this call included)
           n,        \* operations done
           step      \* output only
 vars == <<kv, bulk, closed, obj, path, n, step>>
@@ -353,8 +355,8 @@ Do(op) == /\ n < MaxSteps
                  removed == SumMult(bulk, DOMAIN kv) - SumMult(r[3], DOMAIN r[2])
              IN /\ kv' = r[2]
                 /\ bulk' = r[3]
-                /\ step' = IF Mode = "hist" THEN ToString(Rec(kv, bulk, closed, obj, op, r, path))
-                                            ELSE ToJson(Rec(kv, bulk, closed, obj, op, r, path))
+                /\ step' = IF Mode = "hist" THEN ToString(Rec(kv, bulk, closed, obj, op, r, path'))
+                                            ELSE ToJson(Rec(kv, bulk, closed, obj, op, r, path'))
                 /\ obj' = IF OnStore(op) /\ op.o = "kept"
                           THEN [obj EXCEPT ![op.p] = [calls |-> @.calls + 1,
                                                       rm |-> IF op.a = "Remove" /\ ~OnClosed(closed, op) THEN Max(@.rm, removed) ELSE @.rm]]
@@ -386,22 +388,24 @@ WalkKinds == <<"Put", "Put", "Put", "RawPut", "RawPut", "Batch", "Get", "Exists"
                "Fill", "Fill", "Remove">>
 
 \* a history: any call of HistKinds after any other, but not the same call twice in a row (except a
-\* second Remove) and at most two Fills
+\* second Remove) and at most two Fills (the first call, if HistFillFirst)
 HistNext == \E t \in HistKinds :
               /\ (Len(path) > 1 /\ t = path[Len(path)]) => t = "Rm"
               /\ (t \in AllSizes) => Fills(path) < 2
-              /\ Do(HistOp(path[1], t))
+              /\ (HistFillFirst /\ Len(path) = 1) => t \in AllSizes
               /\ path' = Append(path, t)
+              /\ Do(HistOp(path[1], t))
 
 Next == /\ n < MaxSteps
-        /\ CASE Mode = "walk"  -> (\E op \in {RandomOp(WalkKinds[R(1..Len(WalkKinds))])} : Do(op)) /\ UNCHANGED path
+        /\ CASE Mode = "walk"  -> UNCHANGED path /\ \E op \in {RandomOp(WalkKinds[R(1..Len(WalkKinds))])} : Do(op)
              [] Mode = "hist"  -> HistNext
-             [] Mode = "cases" -> (\E op \in Ops : Do(op)) /\ UNCHANGED path
+             [] Mode = "cases" -> UNCHANGED path /\ \E op \in Ops : Do(op)
 
 Spec == Init /\ [][Next]_vars
 
 ---------------------------------------------------------------------------
-TypeOK == /\ \A k \in DOMAIN kv : IF IsFat(k) THEN Owner(k) \in Stores ELSE k \in Seqs(InitKeyLen + 2 + UKLen)
+IsKey(k, len) == Len(k) \in 1..len /\ \A i \in 1..Len(k) : k[i] \in Alphabet    \* k \in Seqs(len), without building Seqs(len)
+TypeOK == /\ \A k \in DOMAIN kv : IF IsFat(k) THEN Owner(k) \in Stores ELSE IsKey(k, InitKeyLen + 2 + UKLen)
           /\ \A p \in Stores : bulk[p] \in 0..(3 * L + 2) /\ (bulk[p] > 0 <=> Fat(p) \in DOMAIN kv)
           /\ closed \subseteq Stores
           /\ n \in 0..MaxSteps
@@ -438,7 +442,7 @@ HistAgrees == Mode = "hist" =>
        /\ OnStore(op) => IsolatedOp(op)
 (* ... and so does a removal of the prefix's range in rounds of L, of 1 and of L - 1 keys *)
 HistRounds == Mode = "hist" =>
-  \A lim \in {1, L - 1, L} :
+  \A lim \in {L - 1, L} :
     LET nr == BytesPrefix(path[1])
         r  == ImplBatchRemove(kv, bulk, nr[1], nr[2], lim, 0, 0)
     IN r[2] = AbsRemove(kv, path[1]) /\ r[1] = SumMult(bulk, Under(kv, path[1]))
